@@ -5,11 +5,16 @@ import FitModel.Basic
   * `Reader` is an `io.Reader` as far as the decoder can observe it: remaining bytes, how the
     reader splits them into `Read` results, and how it ends (EOF or a non-EOF error).
     Every `Read` delivers at least one byte or reports the end (the io.Reader contract).
-  * `Prog α` is a computation whose only effects are the three ways reader.go pulls bytes:
-    through the 4096-byte buffer limited by the header's data size (`fill`/`readByte`/
-    `skipByte`/`readFull`), `io.ReadFull` on the reader itself (header, trailing CRC) and
-    `io.CopyN` (CheckIntegrity).
-  * `runBuffered` mirrors reader.go's buffering; `runSpec` simply consumes from the list.
+  * A decode is a program in three phases, mirroring `(*decoder).decode`:
+      - header phase  (`HProg`): `io.ReadFull` directly on the reader;
+      - data phase    (`DProg`): bytes pulled through the 4096-byte buffer, never more than the
+                                 header's data size (`fill`/`readByte`/`skipByte`/`readFull`);
+      - trailer phase (`TProg`): `io.ReadFull` directly on the reader again (file CRC), entered
+                                 only through `endData`, i.e. when exactly `limit` bytes were consumed
+                                 (the decoder's "pre-CRC" invariant check), or after `io.CopyN`
+                                 (CheckIntegrity).
+  * `runBuffered…` mirrors reader.go's buffering; `runSpec…` simply consumes from the list.
+    `FitProofs/Refine.lean` proves that they agree.
 -/
 namespace Fit
 
@@ -34,20 +39,24 @@ def Reader.chunk (r : Reader) : Option Nat :=
   | [] => none
   | s => some (max 1 (s.getD (r.tick % s.length) 1))
 
+/-- number of bytes a `Read(p)` with `len(p) = want` delivers when data is left -/
+def Reader.amount (r : Reader) (want : Nat) : Nat :=
+  match r.chunk with
+  | none => min want r.data.length
+  | some c => min (min want c) r.data.length
+
 /-- One `Read(p)` with `len(p) = want` (`want ≥ 1`): delivered bytes, error, new reader. -/
 def Reader.read (r : Reader) (want : Nat) : Bytes × Option Stop × Reader :=
   match r.data with
   | [] => ([], some r.stop, { r with tick := r.tick + 1 })
   | _ :: _ =>
-    let k := match r.chunk with
-      | none => min want r.data.length
-      | some c => min (min want c) r.data.length
+    let k := r.amount want
     let out := r.data.take k
     let rest := r.data.drop k
     let err := if r.errWithData && rest.isEmpty then some r.stop else none
     (out, err, { r with data := rest, tick := r.tick + 1, pos := r.pos + k })
 
-/-- why a read could not be completed -/
+/-- why a buffered read could not be completed -/
 inductive RdStop | limit | eof | fault
 deriving DecidableEq, Repr, Inhabited
 
@@ -55,16 +64,27 @@ def RdStop.ofStop : Stop → RdStop
   | .eof => .eof
   | .fault => .fault
 
-inductive Prog (α : Type) where
-  | done : α → Prog α
+/-- trailer phase: `io.ReadFull(r, k bytes)`; on failure the handler gets the number of bytes obtained -/
+inductive TProg (α : Type) where
+  | done : α → TProg α
+  | readDirect : (k : Nat) → (onErr : Nat → Stop → α) → (cont : Bytes → TProg α) → TProg α
+
+/-- data phase -/
+inductive DProg (α : Type) where
+  | done : α → DProg α
   /-- exactly `k` bytes through the buffer (`readFull`; `readByte`/`skipByte` are k = 1) -/
-  | readBuf : (k : Nat) → (onErr : RdStop → α) → (cont : Bytes → Prog α) → Prog α
-  /-- `io.ReadFull(r, k bytes)`; on failure the handler gets the number of bytes obtained -/
-  | readDirect : (k : Nat) → (onErr : Nat → Stop → α) → (cont : Bytes → Prog α) → Prog α
-  /-- `io.CopyN(dst, r, k)`; the continuation gets the copied bytes -/
-  | copyN : (k : Nat) → (onErr : Stop → α) → (cont : Bytes → Prog α) → Prog α
-  /-- `d.bytes.limit = n` -/
-  | setLimit : (n : Nat) → (cont : Prog α) → Prog α
+  | readBuf : (k : Nat) → (onErr : RdStop → α) → (cont : Bytes → DProg α) → DProg α
+  /-- leave the data area: only possible when exactly `limit` bytes were consumed -/
+  | endData : (onBad : α) → (cont : TProg α) → DProg α
+
+/-- header phase -/
+inductive HProg (α : Type) where
+  | done : α → HProg α
+  | readDirect : (k : Nat) → (onErr : Nat → Stop → α) → (cont : Bytes → HProg α) → HProg α
+  /-- `d.bytes.limit = limit`, then the buffered phase -/
+  | data : (limit : Nat) → (p : DProg α) → HProg α
+  /-- `io.CopyN(dst, r, limit)`, then the trailer; the continuation gets the copied bytes -/
+  | copyAll : (limit : Nat) → (onErr : Stop → α) → (cont : Bytes → TProg α) → HProg α
 
 /-! ### buffered interpreter (reader.go) -/
 
@@ -128,48 +148,71 @@ def copyNB (fuel : Nat) (k : Nat) (r : Reader) (acc : Bytes) : Except Stop Bytes
         if bs.length = k then (.ok (acc ++ bs), r') else (.error .fault, r')
       | (bs, _, r') => copyNB fuel (k - bs.length) r' (acc ++ bs)
 
-def runBuffered {α} : Prog α → BufSt → α × BufSt
-  | .done a, b => (a, b)
+def runBufferedT {α} : TProg α → Reader → α × Reader
+  | .done a, r => (a, r)
+  | .readDirect k onErr cont, r =>
+    match readDirectB k k r [] with
+    | (.ok bs, r') => runBufferedT (cont bs) r'
+    | (.error (got, e), r') => (onErr got e, r')
+
+def runBufferedD {α} : DProg α → BufSt → α × Reader
+  | .done a, b => (a, b.r)
   | .readBuf k onErr cont, b =>
     match readFullB k b with
-    | (.ok bs, b') => runBuffered (cont bs) b'
-    | (.error e, b') => (onErr e, b')
-  | .readDirect k onErr cont, b =>
-    match readDirectB k k b.r [] with
-    | (.ok bs, r') => runBuffered (cont bs) { b with r := r' }
-    | (.error (got, e), r') => (onErr got e, { b with r := r' })
-  | .copyN k onErr cont, b =>
-    match copyNB k k b.r [] with
-    | (.ok bs, r') => runBuffered (cont bs) { b with r := r' }
-    | (.error e, r') => (onErr e, { b with r := r' })
-  | .setLimit n cont, b => runBuffered cont { b with limit := n, n := 0, pending := [] }
+    | (.ok bs, b') => runBufferedD (cont bs) b'
+    | (.error e, b') => (onErr e, b'.r)
+  | .endData onBad cont, b =>
+    if b.n = b.limit then runBufferedT cont b.r else (onBad, b.r)
+
+def runBuffered {α} : HProg α → Reader → α × Reader
+  | .done a, r => (a, r)
+  | .readDirect k onErr cont, r =>
+    match readDirectB k k r [] with
+    | (.ok bs, r') => runBuffered (cont bs) r'
+    | (.error (got, e), r') => (onErr got e, r')
+  | .data limit p, r => runBufferedD p { r := r, pending := [], n := 0, limit := limit }
+  | .copyAll limit onErr cont, r =>
+    match copyNB limit limit r [] with
+    | (.ok bs, r') => runBufferedT (cont bs) r'
+    | (.error e, r') => (onErr e, r')
 
 /-! ### specification interpreter: consume from a list -/
 
+/-- the stream as a list and how it ends; `taken` counts the bytes consumed -/
 structure SpecSt where
-  rest : Bytes         -- bytes of the stream not yet consumed
-  stop : Stop          -- how the stream ends
-  n : Nat
-  limit : Nat
-  taken : Nat          -- bytes consumed so far
+  rest : Bytes
+  stop : Stop
+  taken : Nat
 deriving Repr, Inhabited
 
-def runSpec {α} : Prog α → SpecSt → α × SpecSt
+def runSpecT {α} : TProg α → SpecSt → α × SpecSt
   | .done a, s => (a, s)
-  | .readBuf k onErr cont, s =>
-    let room := s.limit - s.n
-    if k ≤ room ∧ k ≤ s.rest.length then
-      runSpec (cont (s.rest.take k)) { s with rest := s.rest.drop k, n := s.n + k, taken := s.taken + k }
-    else if room ≤ s.rest.length then (onErr .limit, s)
+  | .readDirect k onErr cont, s =>
+    if k ≤ s.rest.length then
+      runSpecT (cont (s.rest.take k)) { s with rest := s.rest.drop k, taken := s.taken + k }
+    else (onErr s.rest.length s.stop, { s with rest := [], taken := s.taken + s.rest.length })
+
+/-- data phase over the list; `n` bytes of `limit` consumed so far -/
+def runSpecD {α} (limit : Nat) : DProg α → Nat → SpecSt → α × SpecSt
+  | .done a, _, s => (a, s)
+  | .readBuf k onErr cont, n, s =>
+    if k ≤ limit - n ∧ k ≤ s.rest.length then
+      runSpecD limit (cont (s.rest.take k)) (n + k) { s with rest := s.rest.drop k, taken := s.taken + k }
+    else if limit - n ≤ s.rest.length then (onErr .limit, s)
     else (onErr (RdStop.ofStop s.stop), s)
+  | .endData onBad cont, n, s =>
+    if n = limit then runSpecT cont s else (onBad, s)
+
+def runSpec {α} : HProg α → SpecSt → α × SpecSt
+  | .done a, s => (a, s)
   | .readDirect k onErr cont, s =>
     if k ≤ s.rest.length then
       runSpec (cont (s.rest.take k)) { s with rest := s.rest.drop k, taken := s.taken + k }
     else (onErr s.rest.length s.stop, { s with rest := [], taken := s.taken + s.rest.length })
-  | .copyN k onErr cont, s =>
-    if k ≤ s.rest.length then
-      runSpec (cont (s.rest.take k)) { s with rest := s.rest.drop k, taken := s.taken + k }
+  | .data limit p, s => runSpecD limit p 0 s
+  | .copyAll limit onErr cont, s =>
+    if limit ≤ s.rest.length then
+      runSpecT (cont (s.rest.take limit)) { s with rest := s.rest.drop limit, taken := s.taken + limit }
     else (onErr s.stop, { s with rest := [], taken := s.taken + s.rest.length })
-  | .setLimit n cont, s => runSpec cont { s with limit := n, n := 0 }
 
 end Fit
